@@ -35,7 +35,7 @@ fn siblings(kind: &str, defs: &str) -> Vec<String> {
 }
 
 fn subjects_inner(rng: &mut Rng) -> (String, String, bool, &'static str) {
-    match rng.below(11) {
+    match rng.below(12) {
         0 => (
             "'shape = Circle[r: 'int] | Rect[w: 'int, h: 'int] | Tri['int, 'int, 'int], area = #'shape { | =Circle[r: r] => [r, r] __integer_multiply__ | =Rect[w: w, h: h] => [w, h] __integer_multiply__ | =Tri[a, b, c] => [a, [b, c] __integer_add__] __integer_add__ }".into(),
             format!("[Circle[r: {}] area, Rect[w: 2, h: {}] area, Tri[1, 2, 3] area]", rng.range(1, 9), rng.range(1, 9)),
@@ -91,6 +91,18 @@ fn subjects_inner(rng: &mut Rng) -> (String, String, bool, &'static str) {
             format!("ia = &__integer_and__, p = @#{{ m = ! [&ia], m ia }}, [255, {}] p, ix = &__integer_xor__, q = @#{{ !ix }}, [3, 5] q, [!p, !q, &__integer_or__ gb, 5 gb]", rng.range(1, 250)),
             false,
             "builtin-signature",
+        ),
+        9 => (
+            // REPL only: a process referenced by number (`@N`), type-tested at run time, compared with the
+            // spawn handle, sent to and awaited. `@?` is replaced by the client with the newest process id;
+            // lines are separated by `;;`.
+            String::new(),
+            format!(
+                "'pi = (@'int -> 'int), 'pb = (@'bin -> 'bin), pcl = #('pi | 'pb) {{ | ='pi => 1 | 2 }}, p = @{{ m = !'int, n = !'int, [m, n] __integer_add__ }};;q = {} @?;;[&q pcl, &p pcl, [&q =&p], [&p =&q]];;6 q;;!q",
+                rng.range(1, 90)
+            ),
+            false,
+            "repl-process-ref",
         ),
         _ => {
             // the confluent process family of C03
@@ -148,7 +160,7 @@ impl Property for C10 {
         false
     }
     fn rule_text(&self) -> &'static str {
-        "cases: a subject program (union dispatch, recursive types, partial types, closures with binary captures, typed-receive processes, builtins new to the environment used as receive sources and in type tests, a helper record, C03's confluent process family) is run once as compiled in a fresh environment (reference) and then under variants that draw: 0-6 previously merged programs and REPL lines of a second session (other tuple shapes, same-named tuples with other field types, other constants and builtins), some still running when the subject is merged, merges landing while the subject runs, the load path (run path as compiled / tree-shaken / JSON round trip, or REPL), helpers inlined vs imported from an in-memory module, plus the usual schedule/configuration sampling. History leg = variants with >=1 prior merge; configuration leg = the rest. Non-trivial: >=2 workers, >=1 out-of-order handled message, conclusive. Distinct = distinct (scenario shape + packaging, interleaving hash)."
+        "cases: a subject program (union dispatch, recursive types, partial types, closures with binary captures, typed-receive processes, builtins new to the environment used as receive sources and in type tests, a REPL session that references a process by number (`@N`) and type-tests it, a helper record, C03's confluent process family) is run once as compiled in a fresh environment (reference) and then under variants that draw: 0-6 previously merged programs and REPL lines of a second session (other tuple shapes, same-named tuples with other field types, other constants and builtins), some still running when the subject is merged, merges landing while the subject runs, the load path (run path as compiled / tree-shaken / JSON round trip, or REPL), helpers inlined vs imported from an in-memory module, plus the usual schedule/configuration sampling. History leg = variants with >=1 prior merge; configuration leg = the rest. Non-trivial: >=2 workers, >=1 out-of-order handled message, conclusive. Distinct = distinct (scenario shape + packaging, interleaving hash)."
     }
     fn required_probes(&self) -> Vec<&'static str> {
         vec!["history_leg_runs", "configuration_leg_runs", "subject_tree_shaken", "subject_json_roundtrip", "subject_via_repl", "subject_module_import", "merge_while_subject_running", "history_program_still_running_at_merge", "worker_tables_compared"]
@@ -176,7 +188,11 @@ impl Property for C10 {
     fn prepare(&self, scn: &mut Scenario, case_seed: u64) -> Vec<(Violation, crate::run::RunSpec, RunResult)> {
         let mut e: Expect = serde_json::from_value(scn.expect.clone()).unwrap();
         let mut s2 = scn.clone();
-        s2.ops = vec![ClientOp::Run { src: render_run(&e, false), shake: false, json: false, wait: true }];
+        s2.ops = if e.kind == "repl-process-ref" {
+            e.body.split(";;").map(|l| ClientOp::Line { session: 0, src: l.to_string() }).collect()
+        } else {
+            vec![ClientOp::Run { src: render_run(&e, false), shake: false, json: false, wait: true }]
+        };
         let spec = super::reference_spec(&s2, case_seed);
         let r = super::run_spec(self, &s2, spec.clone(), false);
         scn.est_len = r.steps.max(40) * 3;
@@ -218,6 +234,14 @@ impl Property for C10 {
             }
         }
         let import = e.uses_hm && rng.chance(1, 2);
+        if e.kind == "repl-process-ref" {
+            // nothing may start a process between the spawn and the `@?` line
+            ops.extend(during);
+            for l in e.body.split(";;") {
+                ops.push(ClientOp::Line { session: 0, src: l.to_string() });
+            }
+            return Some(ops);
+        }
         match rng.below(4) {
             0 => {
                 // REPL path
